@@ -137,7 +137,7 @@ func (t *termer) term(v ssa.Value, ctx *Ctx) *Term {
 		st := derefStruct(x.X.Type())
 		name := fmt.Sprintf("#%d", x.Field)
 		if st != nil && x.Field < st.NumFields() {
-			name = st.Field(x.Field).Name()
+			name = fieldLabel(x.X.Type(), x.Field)
 		}
 		if al, ok := x.X.(*ssa.Alloc); ok {
 			// a local struct variable initialised by one whole-struct store and never written
@@ -155,7 +155,7 @@ func (t *termer) term(v ssa.Value, ctx *Ctx) *Term {
 		st := derefStruct(x.X.Type())
 		name := fmt.Sprintf("#%d", x.Field)
 		if st != nil && x.Field < st.NumFields() {
-			name = st.Field(x.Field).Name()
+			name = fieldLabel(x.X.Type(), x.Field)
 		}
 		return mk("field", name, v, ctx, t.term(x.X, ctx))
 	case *ssa.UnOp:
